@@ -1,14 +1,20 @@
 //@ include-into src/registers/control.rs
 //
-// C16 (sample): CR0 / CR2 / CR3 / CR4 wrappers against the abstract machine.
+// C16: CR0 / CR2 / CR3 / CR4 wrappers against the abstract machine.
+// (Msr::read / Msr::write and the typed MSR wrappers are in c16_msr.rs.)
 // The MODELLED masks are written from the SDM (vol. 3A 2.5), not taken from
 // the crate, so that dropping a flag from the bitflags type is seen here.
+//
+// Which wrappers preserve unmodelled bits follows each wrapper's own doc
+// comment: Cr0::write / Cr4::write say "Preserves the value of reserved
+// fields"; Cr3::write* build the whole register from their arguments.
 
 #[cfg(kani)]
 mod verif_c16_control {
     use super::*;
+    use crate::instructions::tlb::Pcid;
     use crate::structures::paging::PhysFrame;
-    use crate::verif_hw::{self, Kind};
+    use crate::verif_hw::{self, field, Kind};
     use crate::PhysAddr;
 
     /// CR0 bits 0-5, 16, 18, 29, 30, 31.
@@ -18,6 +24,15 @@ mod verif_c16_control {
     /// CR3 bits 3, 4.
     const CR3_FLAG_BITS: u64 = 0x18;
     const PHYS_FRAME_MASK: u64 = 0x000f_ffff_ffff_f000;
+
+    fn any_frame() -> (PhysFrame, u64) {
+        let addr: u64 = kani::any::<u64>() & PHYS_FRAME_MASK;
+        (PhysFrame::containing_address(PhysAddr::new(addr)), addr)
+    }
+    fn any_pcid() -> Pcid {
+        // all 4096 PCIDs
+        Pcid::new(kani::any::<u16>() & 0xfff).unwrap()
+    }
 
     // ---------------------------------------------------------------- CR0
 
@@ -37,16 +52,38 @@ mod verif_c16_control {
         let _ = w_cr0_read();
     }
 
+    //@ obligation C16 C16.Cr0_read.event_and_frame
+    #[kani::proof]
+    fn c16_cr0_read_event_and_frame() {
+        verif_hw::reset_symbolic();
+        let before = *verif_hw::m();
+        kani::cover!(true, "c16_cr0_read_event_and_frame: reachable");
+        let r = Cr0::read();
+        let m = verif_hw::m();
+        assert!(
+            r.bits() == before.cr0 & CR0_MODELLED,
+            "C16.Cr0_read.event_and_frame: typed read == raw & MODELLED"
+        );
+        assert!(
+            m.only_event_is(Kind::MovFromCr, 0, before.cr0, 0) && m.regs_same_except(&before, field::NONE),
+            "C16.Cr0_read.event_and_frame: exactly one mov from cr0, no register changes"
+        );
+    }
+
     //@ obligation C16 C16.Cr0_read_raw.value_and_event
     #[kani::proof]
     fn c16_cr0_read_raw_value_and_event() {
         verif_hw::reset_symbolic();
-        let old = verif_hw::m().cr0;
+        let before = *verif_hw::m();
+        let old = before.cr0;
         kani::cover!(true, "c16_cr0_read_raw_value_and_event: reachable");
         let r = Cr0::read_raw();
         let m = verif_hw::m();
         assert!(r == old, "C16.Cr0_read_raw.value_and_event: returns the register");
-        assert!(m.cr0 == old, "C16.Cr0_read_raw.value_and_event: register unchanged");
+        assert!(
+            m.regs_same_except(&before, field::NONE),
+            "C16.Cr0_read_raw.value_and_event: register unchanged"
+        );
         assert!(
             m.only_event_is(Kind::MovFromCr, 0, old, 0),
             "C16.Cr0_read_raw.value_and_event: exactly one mov from cr0"
@@ -64,8 +101,8 @@ mod verif_c16_control {
         let m = verif_hw::m();
         assert!(m.cr0 == v, "C16.Cr0_write_raw.stores_exactly: cr0 == value");
         assert!(
-            m.cr2 == before.cr2 && m.cr3 == before.cr3 && m.cr4 == before.cr4,
-            "C16.Cr0_write_raw.stores_exactly: other control registers unchanged"
+            m.regs_same_except(&before, field::CR0),
+            "C16.Cr0_write_raw.stores_exactly: no other register changes"
         );
         assert!(
             m.only_event_is(Kind::MovToCr, 0, v, 0),
@@ -81,24 +118,29 @@ mod verif_c16_control {
         let flags = Cr0Flags::from_bits_retain(kani::any::<u64>() & CR0_MODELLED);
         kani::cover!(true, "c16_cr0_write_preserves_unmodelled: reachable");
         unsafe { Cr0::write(flags) };
-        let m = verif_hw::m();
         let expect = (before.cr0 & !CR0_MODELLED) | flags.bits();
+        {
+            let m = verif_hw::m();
+            assert!(
+                m.cr0 == expect,
+                "C16.Cr0_write.preserves_unmodelled: new == (old & !MODELLED) | flags"
+            );
+            assert!(
+                m.regs_same_except(&before, field::CR0),
+                "C16.Cr0_write.preserves_unmodelled: no other register changes"
+            );
+            assert!(
+                m.count(Kind::MovToCr) == 1 && !m.log_overflow && !m.unknown_asm_hit,
+                "C16.Cr0_write.preserves_unmodelled: exactly one control register write"
+            );
+            assert!(
+                m.only_events_are((Kind::MovFromCr, 0, before.cr0, 0), (Kind::MovToCr, 0, expect, 0)),
+                "C16.Cr0_write.preserves_unmodelled: the write is the last event and targets cr0"
+            );
+        }
         assert!(
-            m.cr0 == expect,
-            "C16.Cr0_write.preserves_unmodelled: new == (old & !MODELLED) | flags"
-        );
-        assert!(
-            m.cr2 == before.cr2 && m.cr3 == before.cr3 && m.cr4 == before.cr4,
-            "C16.Cr0_write.preserves_unmodelled: other control registers unchanged"
-        );
-        assert!(
-            m.count(Kind::MovToCr) == 1 && !m.log_overflow && !m.unknown_asm_hit,
-            "C16.Cr0_write.preserves_unmodelled: exactly one control register write"
-        );
-        let last = m.event(m.log_len - 1);
-        assert!(
-            last.is(Kind::MovToCr, 0, expect, 0),
-            "C16.Cr0_write.preserves_unmodelled: the write is the last event and targets cr0"
+            Cr0::read() == flags,
+            "C16.Cr0_write.preserves_unmodelled: the next typed read returns the flags written"
         );
     }
 
@@ -106,7 +148,8 @@ mod verif_c16_control {
     #[kani::proof]
     fn c16_cr0_update_read_f_write() {
         verif_hw::reset_symbolic();
-        let old = verif_hw::m().cr0;
+        let before = *verif_hw::m();
+        let old = before.cr0;
         let chosen = Cr0Flags::from_bits_retain(kani::any::<u64>() & CR0_MODELLED);
         kani::cover!(true, "c16_cr0_update_read_f_write: reachable");
         let mut calls: u8 = 0;
@@ -138,6 +181,10 @@ mod verif_c16_control {
             m.count(Kind::MovToCr) == 1 && !m.log_overflow && !m.unknown_asm_hit,
             "C16.Cr0_update.read_f_write: exactly one control register write"
         );
+        assert!(
+            m.log_len == 3 && m.event(2).is(Kind::MovToCr, 0, m.cr0, 0) && m.regs_same_except(&before, field::CR0),
+            "C16.Cr0_update.read_f_write: the write is the last event, targets cr0, nothing else changes"
+        );
     }
 
     // ---------------------------------------------------------------- CR2
@@ -146,14 +193,47 @@ mod verif_c16_control {
     #[kani::proof]
     fn c16_cr2_read_raw_value_and_event() {
         verif_hw::reset_symbolic();
-        let old = verif_hw::m().cr2;
+        let before = *verif_hw::m();
+        let old = before.cr2;
         kani::cover!(true, "c16_cr2_read_raw_value_and_event: reachable");
         let r = Cr2::read_raw();
         let m = verif_hw::m();
         assert!(r == old, "C16.Cr2_read_raw.value_and_event: returns the register");
         assert!(
-            m.only_event_is(Kind::MovFromCr, 2, old, 0),
-            "C16.Cr2_read_raw.value_and_event: exactly one mov from cr2"
+            m.only_event_is(Kind::MovFromCr, 2, old, 0) && m.regs_same_except(&before, field::NONE),
+            "C16.Cr2_read_raw.value_and_event: exactly one mov from cr2, no register changes"
+        );
+    }
+
+    /// Cr2::read uses VirtAddr::try_new: documented to return
+    /// Err(VirtAddrNotValid) for non-canonical register contents instead of
+    /// panicking (CR2 is writable with any value, so such contents are possible).
+    //@ obligation C16 C16.Cr2_read.ok_iff_canonical
+    #[kani::proof]
+    fn c16_cr2_read_ok_iff_canonical() {
+        verif_hw::reset_symbolic();
+        let before = *verif_hw::m();
+        let old = before.cr2;
+        let top = old >> 47;
+        let canonical = top == 0 || top == 0x1_ffff;
+        kani::cover!(true, "c16_cr2_read_ok_iff_canonical: reachable");
+        kani::cover!(canonical, "c16_cr2_read_ok_iff_canonical: canonical contents");
+        kani::cover!(!canonical, "c16_cr2_read_ok_iff_canonical: non-canonical contents");
+        let r = Cr2::read();
+        let m = verif_hw::m();
+        match r {
+            Ok(a) => assert!(
+                canonical && a.as_u64() == old,
+                "C16.Cr2_read.ok_iff_canonical: Ok(address == all 64 bits) only for canonical contents"
+            ),
+            Err(e) => assert!(
+                !canonical && e.0 == old,
+                "C16.Cr2_read.ok_iff_canonical: Err carrying the raw value only for non-canonical contents"
+            ),
+        }
+        assert!(
+            m.only_event_is(Kind::MovFromCr, 2, old, 0) && m.regs_same_except(&before, field::NONE),
+            "C16.Cr2_read.ok_iff_canonical: exactly one mov from cr2, no register changes"
         );
     }
 
@@ -164,8 +244,7 @@ mod verif_c16_control {
     fn c16_cr3_write_read_back() {
         verif_hw::reset_symbolic();
         let before = *verif_hw::m();
-        let addr: u64 = kani::any::<u64>() & PHYS_FRAME_MASK;
-        let frame: PhysFrame = PhysFrame::containing_address(PhysAddr::new(addr));
+        let (frame, addr) = any_frame();
         let flags = Cr3Flags::from_bits_retain(kani::any::<u64>() & CR3_FLAG_BITS);
         kani::cover!(true, "c16_cr3_write_read_back: reachable");
         unsafe { Cr3::write(frame, flags) };
@@ -180,8 +259,8 @@ mod verif_c16_control {
                 "C16.Cr3_write.read_back: exactly one mov to cr3"
             );
             assert!(
-                m.cr0 == before.cr0 && m.cr2 == before.cr2 && m.cr4 == before.cr4,
-                "C16.Cr3_write.read_back: other control registers unchanged"
+                m.regs_same_except(&before, field::CR3),
+                "C16.Cr3_write.read_back: no other register changes"
             );
         }
         let (f2, fl2) = Cr3::read();
@@ -191,11 +270,97 @@ mod verif_c16_control {
         );
     }
 
+    //@ obligation C16 C16.Cr3_write_pcid.read_back
+    #[kani::proof]
+    fn c16_cr3_write_pcid_read_back() {
+        verif_hw::reset_symbolic();
+        let before = *verif_hw::m();
+        let (frame, addr) = any_frame();
+        let pcid = any_pcid();
+        kani::cover!(true, "c16_cr3_write_pcid_read_back: reachable");
+        unsafe { Cr3::write_pcid(frame, pcid) };
+        let expect = addr | pcid.value() as u64;
+        {
+            let m = verif_hw::m();
+            assert!(
+                m.cr3 == expect,
+                "C16.Cr3_write_pcid.read_back: cr3 == frame address | PCID, bit 63 clear"
+            );
+            assert!(
+                m.only_event_is(Kind::MovToCr, 3, expect, 0) && m.regs_same_except(&before, field::CR3),
+                "C16.Cr3_write_pcid.read_back: exactly one mov to cr3, no other register changes"
+            );
+        }
+        let (f2, p2) = Cr3::read_pcid();
+        assert!(
+            f2 == frame && p2.value() == pcid.value(),
+            "C16.Cr3_write_pcid.read_back: read_pcid returns the frame and the PCID written"
+        );
+    }
+
+    //@ obligation C16 C16.Cr3_write_pcid_no_flush.bit63_and_read_back
+    #[kani::proof]
+    fn c16_cr3_write_pcid_no_flush_bit63() {
+        verif_hw::reset_symbolic();
+        let before = *verif_hw::m();
+        let (frame, addr) = any_frame();
+        let pcid = any_pcid();
+        kani::cover!(true, "c16_cr3_write_pcid_no_flush_bit63: reachable");
+        unsafe { Cr3::write_pcid_no_flush(frame, pcid) };
+        let expect = (1u64 << 63) | addr | pcid.value() as u64;
+        {
+            let m = verif_hw::m();
+            assert!(
+                m.only_event_is(Kind::MovToCr, 3, expect, 0),
+                "C16.Cr3_write_pcid_no_flush.bit63_and_read_back: the value moved to cr3 is bit 63 | frame | PCID"
+            );
+            assert!(
+                m.regs_same_except(&before, field::CR3),
+                "C16.Cr3_write_pcid_no_flush.bit63_and_read_back: no other register changes"
+            );
+        }
+        // (hardware does not store bit 63; the model does. read_pcid must not care.)
+        let (f2, p2) = Cr3::read_pcid();
+        assert!(
+            f2 == frame && p2.value() == pcid.value(),
+            "C16.Cr3_write_pcid_no_flush.bit63_and_read_back: read_pcid returns the frame and the PCID written"
+        );
+    }
+
+    //@ obligation C16 C16.Cr3_write_raw.stores_frame_and_low_bits
+    #[kani::proof]
+    fn c16_cr3_write_raw_stores_frame_and_low_bits() {
+        verif_hw::reset_symbolic();
+        let before = *verif_hw::m();
+        let (frame, addr) = any_frame();
+        let val: u16 = kani::any::<u16>() & 0xfff;
+        kani::cover!(true, "c16_cr3_write_raw_stores_frame_and_low_bits: reachable");
+        unsafe { Cr3::write_raw(frame, val) };
+        let expect = addr | val as u64;
+        {
+            let m = verif_hw::m();
+            assert!(
+                m.cr3 == expect,
+                "C16.Cr3_write_raw.stores_frame_and_low_bits: cr3 == frame address | value, bit 63 clear"
+            );
+            assert!(
+                m.only_event_is(Kind::MovToCr, 3, expect, 0) && m.regs_same_except(&before, field::CR3),
+                "C16.Cr3_write_raw.stores_frame_and_low_bits: exactly one mov to cr3, no other register changes"
+            );
+        }
+        let (f2, v2) = Cr3::read_raw();
+        assert!(
+            f2 == frame && v2 == val,
+            "C16.Cr3_write_raw.stores_frame_and_low_bits: read_raw returns what was written"
+        );
+    }
+
     //@ obligation C16 C16.Cr3_read.decodes_register
     #[kani::proof]
     fn c16_cr3_read_decodes_register() {
         verif_hw::reset_symbolic();
-        let old = verif_hw::m().cr3;
+        let before = *verif_hw::m();
+        let old = before.cr3;
         kani::cover!(true, "c16_cr3_read_decodes_register: reachable");
         let (frame, flags) = Cr3::read();
         let m = verif_hw::m();
@@ -208,8 +373,153 @@ mod verif_c16_control {
             "C16.Cr3_read.decodes_register: flags are bits 3 and 4"
         );
         assert!(
-            m.cr3 == old && m.only_event_is(Kind::MovFromCr, 3, old, 0),
+            m.only_event_is(Kind::MovFromCr, 3, old, 0) && m.regs_same_except(&before, field::NONE),
             "C16.Cr3_read.decodes_register: one mov from cr3, register unchanged"
+        );
+    }
+
+    //@ obligation C16 C16.Cr3_read_raw.decodes_register
+    //@ obligation C16 C16.Cr3_read_pcid.decodes_register
+    #[kani::proof]
+    fn c16_cr3_read_raw_and_pcid_decode_register() {
+        verif_hw::reset_symbolic();
+        let before = *verif_hw::m();
+        let old = before.cr3;
+        kani::cover!(true, "c16_cr3_read_raw_and_pcid_decode_register: reachable");
+        let (frame, low) = Cr3::read_raw();
+        {
+            let m = verif_hw::m();
+            assert!(
+                frame.start_address().as_u64() == old & PHYS_FRAME_MASK && low as u64 == old & 0xfff,
+                "C16.Cr3_read_raw.decodes_register: (frame of bits 12-51, bits 0-11)"
+            );
+            assert!(
+                m.only_event_is(Kind::MovFromCr, 3, old, 0) && m.regs_same_except(&before, field::NONE),
+                "C16.Cr3_read_raw.decodes_register: one mov from cr3, register unchanged"
+            );
+        }
+        let (frame2, pcid) = Cr3::read_pcid();
+        let m = verif_hw::m();
+        assert!(
+            frame2.start_address().as_u64() == old & PHYS_FRAME_MASK && pcid.value() as u64 == old & 0xfff,
+            "C16.Cr3_read_pcid.decodes_register: (frame of bits 12-51, PCID = bits 0-11), never panics"
+        );
+        assert!(
+            m.log_len == 2 && m.event(1).is(Kind::MovFromCr, 3, old, 0) && m.regs_same_except(&before, field::NONE),
+            "C16.Cr3_read_pcid.decodes_register: one mov from cr3, register unchanged"
+        );
+    }
+
+    //@ obligation C16 C16.Cr3_update.read_f_write
+    #[kani::proof]
+    fn c16_cr3_update_read_f_write() {
+        verif_hw::reset_symbolic();
+        let before = *verif_hw::m();
+        let old = before.cr3;
+        let (chosen_frame, chosen_addr) = any_frame();
+        let chosen_flags = Cr3Flags::from_bits_retain(kani::any::<u64>() & CR3_FLAG_BITS);
+        kani::cover!(true, "c16_cr3_update_read_f_write: reachable");
+        let mut calls: u8 = 0;
+        let mut seen: (u64, u64) = (0, 0);
+        let mut writes_before_f: usize = 0;
+        unsafe {
+            Cr3::update(|fr, fl| {
+                calls += 1;
+                seen = (fr.start_address().as_u64(), fl.bits());
+                writes_before_f = verif_hw::count(Kind::MovToCr);
+                *fr = chosen_frame;
+                *fl = chosen_flags;
+            })
+        };
+        let m = verif_hw::m();
+        let expect = chosen_addr | chosen_flags.bits();
+        assert!(calls == 1, "C16.Cr3_update.read_f_write: f runs exactly once");
+        assert!(
+            seen == (old & PHYS_FRAME_MASK, old & CR3_FLAG_BITS),
+            "C16.Cr3_update.read_f_write: f sees the typed read of the old value"
+        );
+        assert!(writes_before_f == 0, "C16.Cr3_update.read_f_write: nothing is written before f ran");
+        assert!(m.cr3 == expect, "C16.Cr3_update.read_f_write: the result of f is written like Cr3::write");
+        assert!(
+            m.only_events_are((Kind::MovFromCr, 3, old, 0), (Kind::MovToCr, 3, expect, 0))
+                && m.regs_same_except(&before, field::CR3),
+            "C16.Cr3_update.read_f_write: one mov from cr3, then exactly one mov to cr3, nothing else changes"
+        );
+    }
+
+    //@ obligation C16 C16.Cr3_update_pcid.read_f_write
+    #[kani::proof]
+    fn c16_cr3_update_pcid_read_f_write() {
+        verif_hw::reset_symbolic();
+        let before = *verif_hw::m();
+        let old = before.cr3;
+        let (chosen_frame, chosen_addr) = any_frame();
+        let chosen_pcid = any_pcid();
+        kani::cover!(true, "c16_cr3_update_pcid_read_f_write: reachable");
+        let mut calls: u8 = 0;
+        let mut seen: (u64, u64) = (0, 0);
+        let mut writes_before_f: usize = 0;
+        unsafe {
+            Cr3::update_pcid(|fr, pc| {
+                calls += 1;
+                seen = (fr.start_address().as_u64(), pc.value() as u64);
+                writes_before_f = verif_hw::count(Kind::MovToCr);
+                *fr = chosen_frame;
+                *pc = chosen_pcid;
+            })
+        };
+        let m = verif_hw::m();
+        let expect = chosen_addr | chosen_pcid.value() as u64;
+        assert!(calls == 1, "C16.Cr3_update_pcid.read_f_write: f runs exactly once");
+        assert!(
+            seen == (old & PHYS_FRAME_MASK, old & 0xfff),
+            "C16.Cr3_update_pcid.read_f_write: f sees read_pcid of the old value"
+        );
+        assert!(writes_before_f == 0, "C16.Cr3_update_pcid.read_f_write: nothing is written before f ran");
+        assert!(
+            m.only_events_are((Kind::MovFromCr, 3, old, 0), (Kind::MovToCr, 3, expect, 0))
+                && m.cr3 == expect
+                && m.regs_same_except(&before, field::CR3),
+            "C16.Cr3_update_pcid.read_f_write: the result of f is written like write_pcid (bit 63 clear), one read, one write"
+        );
+    }
+
+    //@ obligation C16 C16.Cr3_update_pcid_no_flush.read_f_write
+    #[kani::proof]
+    fn c16_cr3_update_pcid_no_flush_read_f_write() {
+        verif_hw::reset_symbolic();
+        let before = *verif_hw::m();
+        let old = before.cr3;
+        let (chosen_frame, chosen_addr) = any_frame();
+        let chosen_pcid = any_pcid();
+        kani::cover!(true, "c16_cr3_update_pcid_no_flush_read_f_write: reachable");
+        let mut calls: u8 = 0;
+        let mut seen: (u64, u64) = (0, 0);
+        let mut writes_before_f: usize = 0;
+        unsafe {
+            Cr3::update_pcid_no_flush(|fr, pc| {
+                calls += 1;
+                seen = (fr.start_address().as_u64(), pc.value() as u64);
+                writes_before_f = verif_hw::count(Kind::MovToCr);
+                *fr = chosen_frame;
+                *pc = chosen_pcid;
+            })
+        };
+        let m = verif_hw::m();
+        let expect = (1u64 << 63) | chosen_addr | chosen_pcid.value() as u64;
+        assert!(calls == 1, "C16.Cr3_update_pcid_no_flush.read_f_write: f runs exactly once");
+        assert!(
+            seen == (old & PHYS_FRAME_MASK, old & 0xfff),
+            "C16.Cr3_update_pcid_no_flush.read_f_write: f sees read_pcid of the old value"
+        );
+        assert!(
+            writes_before_f == 0,
+            "C16.Cr3_update_pcid_no_flush.read_f_write: nothing is written before f ran"
+        );
+        assert!(
+            m.only_events_are((Kind::MovFromCr, 3, old, 0), (Kind::MovToCr, 3, expect, 0))
+                && m.regs_same_except(&before, field::CR3),
+            "C16.Cr3_update_pcid_no_flush.read_f_write: the result of f is written with bit 63 set, one read, one write"
         );
     }
 
@@ -219,7 +529,8 @@ mod verif_c16_control {
     #[kani::proof]
     fn c16_cr4_read_truncated_raw() {
         verif_hw::reset_symbolic();
-        let old = verif_hw::m().cr4;
+        let before = *verif_hw::m();
+        let old = before.cr4;
         kani::cover!(true, "c16_cr4_read_truncated_raw: reachable");
         let r = Cr4::read();
         let raw = Cr4::read_raw();
@@ -230,11 +541,9 @@ mod verif_c16_control {
         assert!(raw == old, "C16.Cr4_read.truncated_raw: read_raw returns the register");
         let m = verif_hw::m();
         assert!(
-            m.log_len == 2
-                && m.event(0).is(Kind::MovFromCr, 4, old, 0)
-                && m.event(1).is(Kind::MovFromCr, 4, old, 0)
-                && !m.unknown_asm_hit,
-            "C16.Cr4_read.truncated_raw: each read is one mov from cr4"
+            m.only_events_are((Kind::MovFromCr, 4, old, 0), (Kind::MovFromCr, 4, old, 0))
+                && m.regs_same_except(&before, field::NONE),
+            "C16.Cr4_read.truncated_raw: each read is one mov from cr4, no register changes"
         );
     }
 
@@ -249,8 +558,8 @@ mod verif_c16_control {
         let m = verif_hw::m();
         assert!(m.cr4 == v, "C16.Cr4_write_raw.stores_exactly: cr4 == value");
         assert!(
-            m.cr0 == before.cr0 && m.cr2 == before.cr2 && m.cr3 == before.cr3,
-            "C16.Cr4_write_raw.stores_exactly: other control registers unchanged"
+            m.regs_same_except(&before, field::CR4),
+            "C16.Cr4_write_raw.stores_exactly: no other register changes"
         );
         assert!(
             m.only_event_is(Kind::MovToCr, 4, v, 0),
@@ -266,24 +575,29 @@ mod verif_c16_control {
         let flags = Cr4Flags::from_bits_retain(kani::any::<u64>() & CR4_MODELLED);
         kani::cover!(true, "c16_cr4_write_preserves_unmodelled: reachable");
         unsafe { Cr4::write(flags) };
-        let m = verif_hw::m();
         let expect = (before.cr4 & !CR4_MODELLED) | flags.bits();
+        {
+            let m = verif_hw::m();
+            assert!(
+                m.cr4 == expect,
+                "C16.Cr4_write.preserves_unmodelled: new == (old & !MODELLED) | flags"
+            );
+            assert!(
+                m.regs_same_except(&before, field::CR4),
+                "C16.Cr4_write.preserves_unmodelled: no other register changes"
+            );
+            assert!(
+                m.count(Kind::MovToCr) == 1 && !m.log_overflow && !m.unknown_asm_hit,
+                "C16.Cr4_write.preserves_unmodelled: exactly one control register write"
+            );
+            assert!(
+                m.only_events_are((Kind::MovFromCr, 4, before.cr4, 0), (Kind::MovToCr, 4, expect, 0)),
+                "C16.Cr4_write.preserves_unmodelled: the write is the last event and targets cr4"
+            );
+        }
         assert!(
-            m.cr4 == expect,
-            "C16.Cr4_write.preserves_unmodelled: new == (old & !MODELLED) | flags"
-        );
-        assert!(
-            m.cr0 == before.cr0 && m.cr2 == before.cr2 && m.cr3 == before.cr3,
-            "C16.Cr4_write.preserves_unmodelled: other control registers unchanged"
-        );
-        assert!(
-            m.count(Kind::MovToCr) == 1 && !m.log_overflow && !m.unknown_asm_hit,
-            "C16.Cr4_write.preserves_unmodelled: exactly one control register write"
-        );
-        let last = m.event(m.log_len - 1);
-        assert!(
-            last.is(Kind::MovToCr, 4, expect, 0),
-            "C16.Cr4_write.preserves_unmodelled: the write is the last event and targets cr4"
+            Cr4::read() == flags,
+            "C16.Cr4_write.preserves_unmodelled: the next typed read returns the flags written"
         );
     }
 
@@ -291,15 +605,18 @@ mod verif_c16_control {
     #[kani::proof]
     fn c16_cr4_update_read_f_write() {
         verif_hw::reset_symbolic();
-        let old = verif_hw::m().cr4;
+        let before = *verif_hw::m();
+        let old = before.cr4;
         let chosen = Cr4Flags::from_bits_retain(kani::any::<u64>() & CR4_MODELLED);
         kani::cover!(true, "c16_cr4_update_read_f_write: reachable");
         let mut calls: u8 = 0;
         let mut seen: u64 = 0;
+        let mut writes_before_f: usize = 0;
         unsafe {
             Cr4::update(|f| {
                 calls += 1;
                 seen = f.bits();
+                writes_before_f = verif_hw::count(Kind::MovToCr);
                 *f = chosen;
             })
         };
@@ -309,6 +626,7 @@ mod verif_c16_control {
             seen == old & CR4_MODELLED,
             "C16.Cr4_update.read_f_write: f sees the typed read of the old value"
         );
+        assert!(writes_before_f == 0, "C16.Cr4_update.read_f_write: nothing is written before f ran");
         assert!(
             m.cr4 == (old & !CR4_MODELLED) | chosen.bits(),
             "C16.Cr4_update.read_f_write: the result of f is written like Cr4::write"
@@ -317,56 +635,9 @@ mod verif_c16_control {
             m.count(Kind::MovToCr) == 1 && !m.log_overflow && !m.unknown_asm_hit,
             "C16.Cr4_update.read_f_write: exactly one control register write"
         );
-    }
-
-    // ------------------------------------------------- MSR (public API only)
-    // Msr lives in model_specific.rs; only its public read/write are used, so
-    // the harnesses can sit in this file. They pin the ecx / edx:eax binding.
-
-    //@ obligation C16 C16.Msr_read.edx_eax_of_index
-    #[kani::proof]
-    fn c16_msr_read_edx_eax_of_index() {
-        use crate::registers::model_specific::Msr;
-        verif_hw::reset_symbolic();
-        let idx = verif_hw::m().msr_index;
-        let val = verif_hw::m().msr_value;
-        // the three base MSRs alias fs_base / gs_base / kernel_gs_base in the model
-        kani::assume(idx < 0xC000_0100 || idx > 0xC000_0102);
-        kani::cover!(true, "c16_msr_read_edx_eax_of_index: reachable");
-        let r = unsafe { Msr::new(idx).read() };
-        let m = verif_hw::m();
         assert!(
-            r == val,
-            "C16.Msr_read.edx_eax_of_index: result == (edx << 32) | eax of MSR[index]"
-        );
-        assert!(
-            m.only_event_is(Kind::Rdmsr, idx as u64, val & 0xffff_ffff, val >> 32),
-            "C16.Msr_read.edx_eax_of_index: exactly one rdmsr with ecx == index"
-        );
-        assert!(
-            m.msr_value == val,
-            "C16.Msr_read.edx_eax_of_index: the register is unchanged"
-        );
-    }
-
-    //@ obligation C16 C16.Msr_write.edx_eax_to_index
-    #[kani::proof]
-    fn c16_msr_write_edx_eax_to_index() {
-        use crate::registers::model_specific::Msr;
-        verif_hw::reset_symbolic();
-        let idx = verif_hw::m().msr_index;
-        let val: u64 = kani::any();
-        kani::assume(idx < 0xC000_0100 || idx > 0xC000_0102);
-        kani::cover!(true, "c16_msr_write_edx_eax_to_index: reachable");
-        unsafe { Msr::new(idx).write(val) };
-        let m = verif_hw::m();
-        assert!(
-            m.msr_value == val,
-            "C16.Msr_write.edx_eax_to_index: MSR[index] == value"
-        );
-        assert!(
-            m.only_event_is(Kind::Wrmsr, idx as u64, val & 0xffff_ffff, val >> 32),
-            "C16.Msr_write.edx_eax_to_index: exactly one wrmsr, ecx == index, eax low half, edx high half"
+            m.log_len == 3 && m.event(2).is(Kind::MovToCr, 4, m.cr4, 0) && m.regs_same_except(&before, field::CR4),
+            "C16.Cr4_update.read_f_write: the write is the last event, targets cr4, nothing else changes"
         );
     }
 }
